@@ -852,6 +852,10 @@ attr_has_value(struct attr_data *attr, kdump_attr_value_t newval)
 	if (!attr_isset(attr))
 		return 0;
 
+	/* A value that must be revalidated is not known to be current. */
+	if (attr->flags.invalid && attr->template->type != KDUMP_DIRECTORY)
+		return 0;
+
 	switch (attr->template->type) {
 	case KDUMP_DIRECTORY:
 		return 1;
